@@ -465,6 +465,14 @@ func ruleOuterLockAroundLeaf(c *Ctx, le *LockEngine, rule string) int {
 			continue
 		}
 		n++
+		// the create-or-replace may live in a private helper of the method
+		method := f
+		for _, g := range reachableSamePkg(method, 2) {
+			if len(CallsTo(g, mq(memfsPkg, "Dir", "addNode"))) > 0 && len(CallsTo(g, mq(memfsPkg, "Dir", "getNode"))) > 0 {
+				f = g
+				break
+			}
+		}
 		la := le.Analyze(f)
 		gets := CallsTo(f, mq(memfsPkg, "Dir", "getNode"))
 		muts := append(CallsTo(f, mq(memfsPkg, "Dir", "addNode")), CallsTo(f, mq(memfsPkg, "File", "setData"))...)
@@ -505,4 +513,29 @@ func ruleOuterLockAroundLeaf(c *Ctx, le *LockEngine, rule string) int {
 			why+" — two concurrent writers of the same new path can both miss and one write is lost or fails")
 	}
 	return n
+}
+
+// reachableSamePkg: f and the functions of its package reachable from it by
+// synchronous static calls, up to the given depth (f first).
+func reachableSamePkg(f *ssa.Function, depth int) []*ssa.Function {
+	var out []*ssa.Function
+	seen := map[*ssa.Function]bool{}
+	var rec func(g *ssa.Function, d int)
+	rec = func(g *ssa.Function, d int) {
+		if g == nil || seen[g] || g.Blocks == nil {
+			return
+		}
+		seen[g] = true
+		out = append(out, g)
+		if d >= depth {
+			return
+		}
+		for _, ci := range Calls(g) {
+			if ci.Kind == "call" && ci.Static != nil && ci.Static.Pkg == f.Pkg {
+				rec(ci.Static, d+1)
+			}
+		}
+	}
+	rec(f, 0)
+	return out
 }
